@@ -14,6 +14,8 @@
 
 struct vf_blk64 { uint8_t b[64]; };
 struct vf_blk8 { uint8_t b[8]; };
+struct vf_blk16 { uint8_t b[16]; };
+struct vf_blk128 { uint8_t b[128]; };
 
 #ifndef VF_NATIVE
 
@@ -24,6 +26,8 @@ uint64_t nondet_u64(void);
 int nondet_int(void);
 struct vf_blk64 nondet_blk64(void);
 struct vf_blk8 nondet_blk8(void);
+struct vf_blk16 nondet_blk16(void);
+struct vf_blk128 nondet_blk128(void);
 
 static inline uint8_t vf_in_u8(void) { uint8_t vf_v = nondet_u8(); return vf_v; }
 static inline uint16_t vf_in_u16(void) { uint16_t vf_v = nondet_u16(); return vf_v; }
@@ -32,17 +36,14 @@ static inline uint64_t vf_in_u64(void) { uint64_t vf_v = nondet_u64(); return vf
 static inline int vf_in_int(void) { int vf_v = nondet_int(); return vf_v; }
 static inline struct vf_blk64 vf_in_blk64(void) { struct vf_blk64 vf_v = nondet_blk64(); return vf_v; }
 static inline struct vf_blk8 vf_in_blk8(void) { struct vf_blk8 vf_v = nondet_blk8(); return vf_v; }
+static inline struct vf_blk16 vf_in_blk16(void) { struct vf_blk16 vf_v = nondet_blk16(); return vf_v; }
+static inline struct vf_blk128 vf_in_blk128(void) { struct vf_blk128 vf_v = nondet_blk128(); return vf_v; }
 
 #define VF_ASSUME(c) __CPROVER_assume(c)
-#ifdef WITNESS
-/* reachability twin: the property assertions are dropped, the final
- * VF_WITNESS() must be reported violated */
-#define VF_ASSERT(c, msg) ((void)0)
-#define VF_WITNESS() __CPROVER_assert(0, "VF_WITNESS end of harness reachable")
-#else
+/* reachability witness: the final VF_WITNESS() is an assert(0) that must be reported VIOLATED in the same run in which
+ * every other property is reported SUCCESS (CBMC checks all properties independently) - guards against vacuous harnesses */
 #define VF_ASSERT(c, msg) __CPROVER_assert((c), "VF: " msg)
-#define VF_WITNESS() ((void)0)
-#endif
+#define VF_WITNESS() __CPROVER_assert(0, "VF_WITNESS end of harness reachable")
 #define VF_STOP() __CPROVER_assume(0)
 
 #else /* VF_NATIVE */
@@ -60,6 +61,8 @@ static inline uint64_t vf_in_u64(void) { return (uint64_t)vf_tape_next(); }
 static inline int vf_in_int(void) { return (int)vf_tape_next(); }
 static inline struct vf_blk64 vf_in_blk64(void) { struct vf_blk64 v; vf_tape_bytes(v.b, 64); return v; }
 static inline struct vf_blk8 vf_in_blk8(void) { struct vf_blk8 v; vf_tape_bytes(v.b, 8); return v; }
+static inline struct vf_blk16 vf_in_blk16(void) { struct vf_blk16 v; vf_tape_bytes(v.b, 16); return v; }
+static inline struct vf_blk128 vf_in_blk128(void) { struct vf_blk128 v; vf_tape_bytes(v.b, 128); return v; }
 
 /* exit codes of a replay: 0 = ran to the end, all assertions held;
  * 1 = assertion violated (reproduced); 77 = an assumption did not hold
